@@ -279,12 +279,11 @@ class NameScenario(explore.Scenario):
         return viol
 
     def canon(self, w):
-        bus = w.bw.bus
-        impl = explore.impl_digest(
-            {n: [getattr(p, 'uniqueName', None) for p in q]
-             for n, q in bus.busNames.items()},
-            [sorted(p.proto.busNames.items()) for p in w.peers],
-            sorted(bus.clients))
+        # everything the bus and its connections hold: two worlds are merged
+        # only if the library itself cannot tell them apart
+        impl = explore.impl_digest(w.bw.bus, [p.proto for p in w.peers],
+                                   ignore=('uuid', 'transport', 'factory',
+                                           '_endian'))
         return (w.model.key(), impl)
 
     def nontrivial(self, hist):
@@ -343,6 +342,11 @@ def run(ctx):
         explore.explore(ctx, NameScenario,
                         {'clients': 2, 'names': 2, 'flags': [0, 1, 2, 3, 4, 6]},
                         max_depth=4, label='2 clients, 2 names, depth 4')
+        explore.explore(ctx, NameScenario, {'clients': 4, 'names': 1},
+                        max_depth=60, label='4 clients, 1 name')
+        explore.explore(ctx, NameScenario,
+                        {'clients': 3, 'names': 2, 'flags': [0, 1, 2, 3, 4, 6]},
+                        max_depth=3, label='3 clients, 2 names, depth 3')
     else:
         explore.explore(ctx, NameScenario, {'clients': 3, 'names': 1},
                         max_depth=60, label='3 clients, 1 name')
